@@ -129,7 +129,7 @@ class Hist(object):
         loc = {'self': self.lref, 'incoming_quantity': q, 'taker_order_id': taker,
                'transaction_id_generator': self.gref, 'result': result, 'remaining': remaining}
         loc.update(extra_locals or {})
-        r, st2, l, fr = self.ex.run_from(fn, block, loc, self.st.copy(), self._pc())
+        r, st2, l, fr = self.ex.run_from(fn, block, loc, self.st.copy(), self._pc(), prologue=True)
         self.ex.block_bounds, self.ex.capture_cuts = saved
         cuts = [self._cut_record(g, cst, f2, b) for g, cst, f2, b in self.ex.cuts[ncut:]
                 if f2.fn.name.endswith('::match_order')]
